@@ -273,6 +273,11 @@ example : decode o1 5 [131, 0x13, 0x88, 0, 2, 0x68, 0x69, 157, 0, 0, 0, 2, 0, 1,
 example : encode o1 .atom (.atom [0x61, 0x62]) = some [140, 1, 44] := by decide
 example : encode o1 .error (.errSent 0) = some [156, 0x9c, 0x40] := by decide
 example : Good o1 .error (.errSent 0) := by simp [Good, LeafGood, o1, limErrIdEnc]
+/-- `Rep`: the value above is representable; a 256-byte atom inside it is not -/
+example : Rep o0 pTy pVal := by
+  simp [pTy, pVal, Rep, Repf, Reps, LeafRep, Num.width, Ty.encodable]
+example : ¬ Rep o0 (.slice .atom) (.list (.cons (.atom (List.replicate 256 0x61)) .nil)) := by
+  simp only [Rep, Reps, LeafRep, List.length_replicate]; omega
 /-- nil and empty stay apart -/
 example : encode o0 (.slice .str) .nil ≠ encode o0 (.slice .str) (.list .nil) := by decide
 example : encode o0 (.map .str .bool) .nil ≠ encode o0 (.map .str .bool) (.map .nil) := by decide
